@@ -99,15 +99,22 @@ class Enc:
         s.FAIL = (PV(FAILV), KL(0), KC(0), T_)
         s.comment_silent = rules.get("COMMENT", ("_", None))[0] == "_"
         # semantic action of the `currency_code` node (parser.rs): upper-cased text must be a code iso_currency knows
-        s.iso = [(ord(c[0]) - 65) * 676 + (ord(c[1]) - 65) * 26 + (ord(c[2]) - 65) for c in iso_codes()]
+        s.iso = {}
+        for c in iso_codes():
+            s.iso.setdefault(c[0], {}).setdefault(c[1], []).append(c[2])
 
     def iso_ok(s, i):
         if i + 3 > s.L:
             return BoolVal(False)
         def up(c):
             return If(And(UGE(c, 97), ULE(c, 122)), c - 32, c)
-        k = ZeroExt(8, up(s.c[i]) - 65) * 676 + ZeroExt(8, up(s.c[i + 1]) - 65) * 26 + ZeroExt(8, up(s.c[i + 2]) - 65)
-        return Or([k == BitVecVal(v, 16) for v in s.iso])
+        a, b, d = up(s.c[i]), up(s.c[i + 1]), up(s.c[i + 2])
+        # membership as a three-level decision structure on the letters (no arithmetic on the key)
+        alts = []
+        for x, m in s.iso.items():
+            inner = [And(b == ord(y), Or([d == ord(z) for z in zs])) for y, zs in m.items()]
+            alts.append(And(a == ord(x), Or(inner)))
+        return Or(alts)
 
     def ok(s, e):
         return e != FAILV
